@@ -11,17 +11,21 @@
     * `compile_is_comp`, `slide_simulates`, `slide_simulates_resume`, `closed_no_escape`,
       `landing_is_statement` — compiler correctness: the jump offsets produced by the CoYML compiler
       make the real `slide` loop do exactly what the structured program does;
-    * `next_step_is_flow_statement_partial` — the element the interpreter lands on after a matched
-      statement is the element of the statement the structured semantics says is next, and the decision
-      `_record_next_step`/`_step_to_event` derive from it is that statement's event;
+    * `next_step_is_flow_statement` — for a single non-competing dialog flow without subflow calls and EVERY
+      history that follows it (any length, restarts included), `computeNextSteps` returns the context updates
+      and the event of the statement the structured semantics reaches next (invariant over the whole
+      `computeNextState` bookkeeping: Lemmas/V1Follow.lean); `next_step_is_flow_statement_partial` is the
+      slide-level core of it and also holds inside programs with subflow calls;
     * `history_function` — the model's decision is a function of (history, flow configs) only.
-  What is NOT carried by a theorem (correspondence + oracle only): the flow-state bookkeeping of
-  `compute_next_state` around the slide (advance / start / interrupt / resume loops) — see the full
-  statement `next_step_is_flow_statement` kept below as a comment.
+  What is NOT carried by a theorem (correspondence + oracle only): several flow configs at once (competing
+  flows, interruption / abort / resume between flows), subflow calls (`do`) inside `computeNextState`, extension
+  flows, priorities, `hide_prev_turn`, and everything the widened model executes for llm_flows.co.
 -/
 import NemoVerif.Lemmas.V1Struct
+import NemoVerif.Lemmas.V1Follow
+import NemoVerif.Generated.LlmFlowsV1
 namespace NemoVerif.C14
-open NemoVerif.V1Interp NemoVerif.V1Struct
+open NemoVerif.V1Interp NemoVerif.V1Struct NemoVerif.V1Follow
 
 /-- The compiler as the code has it (compile sub-blocks, then annotate every element of a loop body
     with `_next_on_break`/`_next_on_continue` unless an inner loop already did) computes the same
@@ -138,19 +142,96 @@ theorem next_step_is_flow_statement_partial (p : Prog) (a a' : Addr) (s' : Step)
     have : (n == "utter") = false := by simpa using hne
     simp [elemOf, isActionable, eventOf, stepToEvent, this, hne]
 
-/-
-  Full statement (NOT proved; carried by the correspondence with the real `compute_next_steps` on every
-  prefix of every generated history and by the reference-interpreter oracle):
+/-- **NoCompetingFlows** (decidable): the flow configs consist of exactly one dialog flow, compiled from `p` with
+    all defaults (priority 1.0, interruptible, not an extension), `p` starts with a `user` statement and
+    contains no subflow call (`do`). -/
+def noCompetingFlows (cfgs : Cfgs) (id : String) (p : Prog) : Bool :=
+  decide (cfgs = [mkCfg id p]) && noDo p && (match p with | .step (.user _) _ => true | _ => false)
 
-  theorem next_step_is_flow_statement (cfgs : Cfgs) (p : Prog) (H : List Event) (j : Addr)
-      (hcfg : cfgs.find id = some { id, elems := compile p }) (hnc : NoCompetingFlows cfgs id)
-      (hfollow : Follows p H j σ)          -- H matches the flow's statements up to the one at address j
-      (hnext : execFrom f σ p j = .atStep σ' j') (hs : stepAt p j' = some s') :
-      computeNextSteps true cfgs H = .ok (ctxDecision σ'.upd ++ (eventOf s').toList)
+/-- the intent a dialog flow starts with -/
+def startIntent : Prog → String
+  | .step (.user i) _ => i
+  | _ => ""
 
-  The missing part is the invariant of `computeNextState` (a single ACTIVE flow state with
-  `head = off p j`, context σ) through `advanceAll` / `startNew` / `resumeLoop`.
--/
+/-- **next_step_is_flow_statement (full, single non-competing flow without subflow calls).**
+    `followAll p …` is the source-level reference: it walks the history event by event, keeps where the flow
+    stands (idle / waiting at the step statement at address `j`) and the context, and says what is decided after
+    each event: the context updates of the statements run since that event plus the event of the statement the
+    structured semantics (`execFrom`) reaches next.  It is defined (`some`) exactly on the histories that follow
+    the flow: the start intent when idle, the event matching the current statement (`user`/`bot`/finished
+    `execute`), `ContextUpdate`, `StartInternalSystemAction`, and any event of a type that does not trigger flows
+    (`UtteranceUserActionFinished`, `UserMessage`, `StartUtteranceBotAction`, `Listen`, …); restarts after the
+    flow finished are included, `hide_prev_turn`, `bot stop` and events that leave the flow are not.
+    For every such history of any length `computeNextSteps` (with both repairs) returns exactly that decision —
+    or the model's fixed fuel (`SLIDE_FUEL` loop iterations within one slide) ran out.
+    The invariant behind it (`V1Follow.Inv`): the interpreter holds exactly one flow state, ACTIVE with
+    `head = off p j` (or none / one COMPLETED when idle), and the same context. -/
+theorem next_step_is_flow_statement (cfgs : Cfgs) (id : String) (p : Prog) (f : Nat) (H : List Event) (S : SS)
+    (hnc : noCompetingFlows cfgs id p = true)
+    (hfollow : followAll p (startIntent p) f { ctx := [], pos := .idle, dec := [] } H = some S) :
+    computeNextSteps true cfgs H = .oof ∨ computeNextSteps true cfgs H = .ok S.dec := by
+  simp only [noCompetingFlows, Bool.and_eq_true, decide_eq_true_eq] at hnc
+  obtain ⟨⟨hc, hnd⟩, hshape⟩ := hnc
+  subst hc
+  cases p with
+  | step s r =>
+    cases s with
+    | user i0 => exact follow_decides id i0 r hnd f H S hfollow
+    | bot i => simp at hshape
+    | exec n ps rk => simp at hshape
+    | doFlow n => simp at hshape
+  | nil => simp at hshape
+  | set k e r => simp at hshape
+  | ite c t e r => simp at hshape
+  | «while» c b r => simp at hshape
+  | brk r => simp at hshape
+  | cont r => simp at hshape
+
+/-- the decision of a well-named step statement is its source-level event -/
+theorem stepDec_is_event (s : Step) (h : WellNamed s) : stepDec s = (eventOf s).toList := by
+  cases s with
+  | user i => simp [stepDec, elemOf, isActionable, eventOf]
+  | doFlow n => simp [stepDec, elemOf, isActionable, eventOf]
+  | bot i =>
+    have : (i == WILDCARD) = false := by simpa [WellNamed] using h
+    simp [stepDec, elemOf, isActionable, eventOf, stepToEvent, this]
+  | exec n ps rk =>
+    have hne : n ≠ "utter" := h
+    have : (n == "utter") = false := by simpa using hne
+    simp [stepDec, elemOf, isActionable, eventOf, stepToEvent, this, hne]
+
+/-- non-vacuity (finite fact): a flow with an assignment, a conditional and a loop, and a history that follows it
+    through two loop iterations; the reference says the next decision is the context update `n = 2` and `bot bye`. -/
+example :
+    let p : Prog := .step (.user "hi") (.set "n" (.lit (.int 0)) (.while (.bin .lt (.var "n") (.lit (.int 2)))
+      (.step (.bot "again") (.set "n" (.bin .add (.var "n") (.lit (.int 1))) .nil)) (.step (.bot "bye") .nil)))
+    noCompetingFlows [mkCfg "f" p] "f" p = true ∧
+    (followAll p "hi" 50 { ctx := [], pos := .idle, dec := [] }
+      [.other "UtteranceUserActionFinished" [], .userIntent "hi", .contextUpdate [("n", .int 0)], .botIntent "again",
+       .contextUpdate [("n", .int 1)], .botIntent "again"]).map (·.dec)
+      = some [.ctx [("n", .int 2)], .bot "bye"] := by
+  decide
+
+/-- **The model runs the shipped rails pipeline** (finite facts, `decide`, on `Generated/LlmFlowsV1.lean`, i.e. on
+    llm_flows.co as compiled by the repo's parser in this run): with no input rails configured a user utterance
+    makes `process user input` assign `$user_message` and create the `UserMessage` event; with an input rail
+    configured it first creates the `StartInputRails` marker (the decision is a `create_event` action either way),
+    and the `UserMessage` event then makes `run dialog rails` call `generate_user_intent`. -/
+theorem llm_pipeline_runs :
+    (match computeNextSteps true NemoVerif.Generated.LlmFlowsV1.flows
+        [.other "UtteranceUserActionFinished" [("final_transcript", .str "hi")]] [("config.rails.input.flows", .strs [])] with
+      | .ok [.ctx [("user_message", .str "hi")], .act "create_event" _ none] => true
+      | _ => false) = true ∧
+    (match computeNextSteps true NemoVerif.Generated.LlmFlowsV1.flows
+        [.other "UtteranceUserActionFinished" [("final_transcript", .str "hi")]] [("config.rails.input.flows", .strs ["self check input"])] with
+      | .ok [.ctx [("user_message", .str "hi")], .act "create_event" _ none] => true
+      | _ => false) = true ∧
+    computeNextSteps true NemoVerif.Generated.LlmFlowsV1.flows
+        [.other "UtteranceUserActionFinished" [("final_transcript", .str "hi")], .contextUpdate [("user_message", .str "hi")],
+         .startAction, .actionFinished "create_event" true, .other "UserMessage" [("text", .str "hi")]]
+        [("config.rails.input.flows", .strs [])]
+      = .ok [.act "generate_user_intent" "{}" none] := by
+  decide +kernel
 
 /-- An instance that serves histories one after the other; the model keeps nothing between calls. -/
 structure Instance where
